@@ -271,6 +271,21 @@ def run_case(case, rec, ssj=None, cache=None):
         check_filter(ssj, base, {'kind': 'OverlapFilter', 'overlap_size': k, 'comp_op': '>='}, req,
                      view, rec, case)
         return {'required': len(req)}
+    if g == 'ov_q':
+        q, pad, k = case['q'], case['padding'], case['size']
+        strs = [s_ for s_ in c03.universe('ab', case.get('maxlen', 3)) if s_ != '']
+        L = T.table_spec(['id', 's'], [[i, s_] for i, s_ in enumerate(strs)], dtypes={'s': 'object'})
+        R = T.table_spec(['id', 's'], [[i, s_] for i, s_ in enumerate(strs)], dtypes={'s': 'object'})
+        tok = {'kind': 'qgram', 'q': q, 'padding': pad, 'return_set': True}
+        base = base_call(L, R, tok)
+        view = oracle.TableView(dict(base))
+        req = required_pairs(view, 'OVERLAP', k)
+        for kind in SAFE_FILTERS:
+            check_filter(ssj, base, {'kind': kind, 'measure': 'OVERLAP', 'threshold': k}, req, view,
+                         rec, case, classify=classify)
+        check_filter(ssj, base, {'kind': 'OverlapFilter', 'overlap_size': k, 'comp_op': '>='}, req,
+                     view, rec, case)
+        return {'required': len(req)}
     if g == 'ed_u':
         cfg, k = case['cfg'], case['k']
         strs = c03.universe(cfg['alpha'], cfg['maxlen'])
@@ -382,6 +397,14 @@ def run_shard(shard, rec):
             st = run_case(case, rec, ssj, cache)
             rec.count('required', st['required'])
             rec.case(sig=('ov', size, shard['N']), nontrivial=st['required'] > 0, n=5)
+        # short strings under (padded) q-gram tokenizers: a string has MORE tokens than characters
+        for q in (2, 3):
+            for pad in (True, False):
+                for size in (1, 2, 3, 4):
+                    case = {'gen': 'ov_q', 'q': q, 'padding': pad, 'size': size, 'maxlen': 3}
+                    st = run_case(case, rec, ssj, cache)
+                    rec.count('required', st['required'])
+                    rec.case(sig=('ov_q', q, pad, size), nontrivial=st['required'] > 0, n=5)
         rec.sample({'workload': 'OV', 'sizes': [1, 2, 3, 4, 5], 'N': shard['N']}, limit=1)
     elif kind == 'ed':
         for cfg in shard['configs']:
